@@ -74,6 +74,11 @@ OPEN_TYPE_ber_get(const asn_codec_ctx_t *opt_codec_ctx,
         if(CHOICE_variant_set_presence(elm->type, *memb_ptr2, 0) != 0) {
             ASN__DECODE_FAILED;
         }
+    } else {
+        /* An OPTIONAL open type member: the holder is not there yet */
+        const asn_CHOICE_specifics_t *ot_specs = elm->type->specifics;
+        *memb_ptr2 = CALLOC(1, ot_specs->struct_size);
+        if(*memb_ptr2 == NULL) ASN__DECODE_FAILED;
     }
 
     inner_value =
@@ -110,7 +115,9 @@ OPEN_TYPE_ber_get(const asn_codec_ctx_t *opt_codec_ctx,
         const asn_CHOICE_specifics_t *specs =
             elm->type->specifics;
         if(elm->flags & ATF_POINTER) {
-            ASN_STRUCT_FREE(*selected.type_descriptor, inner_value);
+            ASN_STRUCT_FREE_CONTENTS_ONLY(*selected.type_descriptor,
+                                          inner_value);
+            FREEMEM(*memb_ptr2);
             *memb_ptr2 = NULL;
         } else {
             ASN_STRUCT_FREE_CONTENTS_ONLY(*selected.type_descriptor,
@@ -152,7 +159,7 @@ OPEN_TYPE_xer_get(const asn_codec_ctx_t *opt_codec_ctx,
     }
 
     /* Fetch the pointer to this member */
-    assert(elm->flags == ATF_OPEN_TYPE);
+    assert(elm->flags & ATF_OPEN_TYPE);
     if(elm->flags & ATF_POINTER) {
         memb_ptr2 = (void **)((char *)sptr + elm->memb_offset);
     } else {
@@ -165,6 +172,11 @@ OPEN_TYPE_xer_get(const asn_codec_ctx_t *opt_codec_ctx,
            != 0) {
             ASN__DECODE_FAILED;
         }
+    } else {
+        /* An OPTIONAL open type member: the holder is not there yet */
+        const asn_CHOICE_specifics_t *ot_specs = elm->type->specifics;
+        *memb_ptr2 = CALLOC(1, ot_specs->struct_size);
+        if(*memb_ptr2 == NULL) ASN__DECODE_FAILED;
     }
 
     /*
@@ -232,7 +244,9 @@ OPEN_TYPE_xer_get(const asn_codec_ctx_t *opt_codec_ctx,
             const asn_CHOICE_specifics_t *specs =
                 elm->type->specifics;
             if(elm->flags & ATF_POINTER) {
-                ASN_STRUCT_FREE(*selected.type_descriptor, inner_value);
+                ASN_STRUCT_FREE_CONTENTS_ONLY(*selected.type_descriptor,
+                                              inner_value);
+                FREEMEM(*memb_ptr2);
                 *memb_ptr2 = NULL;
             } else {
                 ASN_STRUCT_FREE_CONTENTS_ONLY(*selected.type_descriptor,
@@ -311,7 +325,7 @@ OPEN_TYPE_uper_get(const asn_codec_ctx_t *opt_codec_ctx,
     }
 
     /* Fetch the pointer to this member */
-    assert(elm->flags == ATF_OPEN_TYPE);
+    assert(elm->flags & ATF_OPEN_TYPE);
     if(elm->flags & ATF_POINTER) {
         memb_ptr2 = (void **)((char *)sptr + elm->memb_offset);
     } else {
@@ -324,6 +338,11 @@ OPEN_TYPE_uper_get(const asn_codec_ctx_t *opt_codec_ctx,
            != 0) {
             ASN__DECODE_FAILED;
         }
+    } else {
+        /* An OPTIONAL open type member: the holder is not there yet */
+        const asn_CHOICE_specifics_t *ot_specs = elm->type->specifics;
+        *memb_ptr2 = CALLOC(1, ot_specs->struct_size);
+        if(*memb_ptr2 == NULL) ASN__DECODE_FAILED;
     }
 
     inner_value =
@@ -348,7 +367,9 @@ OPEN_TYPE_uper_get(const asn_codec_ctx_t *opt_codec_ctx,
             const asn_CHOICE_specifics_t *specs =
                 elm->type->specifics;
             if(elm->flags & ATF_POINTER) {
-                ASN_STRUCT_FREE(*selected.type_descriptor, inner_value);
+                ASN_STRUCT_FREE_CONTENTS_ONLY(*selected.type_descriptor,
+                                              inner_value);
+                FREEMEM(*memb_ptr2);
                 *memb_ptr2 = NULL;
             } else {
                 ASN_STRUCT_FREE_CONTENTS_ONLY(*selected.type_descriptor,
